@@ -21,7 +21,7 @@ from concurrent.futures import ThreadPoolExecutor
 VERIF = os.path.dirname(os.path.dirname(os.path.abspath(__file__)))
 REPO = os.environ.get('VERIF_REPO', '/repo')
 BUILD = os.path.join(VERIF, 'build')
-CACHE = os.path.join(VERIF, '.cache')
+CACHE = os.environ.get('VERIF_CACHE_DIR') or os.path.join(VERIF, '.cache')
 PLUGIN = os.path.join(BUILD, 'grfacts.so')
 GRIR = os.path.join(BUILD, 'grir')
 
@@ -180,12 +180,14 @@ def extract_ast(cfg='Q0', use_cache=True, log=None):
     return merged
 
 
-def _prune_cache(keep=6):
+def _prune_cache(keep=12):
     try:
+        now = time.time()
         ds = [os.path.join(CACHE, d) for d in os.listdir(CACHE)]
         ds = [d for d in ds if os.path.isdir(d)]
         ds.sort(key=lambda d: os.path.getmtime(d), reverse=True)
         for d in ds[keep:]:
-            subprocess.run(['rm', '-rf', d])
+            if now - os.path.getmtime(d) > 1800:      # never touch a directory another run may still be filling
+                subprocess.run(['rm', '-rf', d])
     except OSError:
         pass
